@@ -35,6 +35,7 @@ Choices random_choices(sim::Rng& r) {
     c.shuffle = r.chance(0.5);
     c.cellname_props = r.chance(0.4);
     c.layernames = r.chance(0.2);
+    c.hoist_text_props = r.chance(0.5);
     return c;
 }
 
@@ -59,6 +60,7 @@ J to_json(const Choices& c) {
     j.set("shuffle", c.shuffle);
     j.set("cellname_props", c.cellname_props);
     j.set("layernames", c.layernames);
+    j.set("hoist_text_props", c.hoist_text_props);
     return j;
 }
 
@@ -83,6 +85,7 @@ Choices choices_from(const J& j) {
     c.shuffle = j.getb("shuffle", true);
     c.cellname_props = j.getb("cellname_props");
     c.layernames = j.getb("layernames");
+    c.hoist_text_props = j.getb("hoist_text_props");
     return c;
 }
 
@@ -1039,7 +1042,11 @@ struct Enc {
             f.sint(vy);
         }
         if (has_rep) repetition(f, l.rep);
-        finish_element(out, 19, inf, f, l.props);
+        auto h = hoisted.find(l.text);
+        if (h != hoisted.end() && !h->second.empty())
+            finish_element(out, 19, inf, f, std::vector<model::MProp>(l.props.begin() + (long)h->second.size(), l.props.end()));
+        else
+            finish_element(out, 19, inf, f, l.props);
     }
 
     void placement(std::vector<Chunk>& out, const model::MRef& r) {
@@ -1124,10 +1131,28 @@ struct Enc {
         group.clear();
     }
 
+    std::map<std::string, std::vector<model::MProp>> hoisted;  // text -> properties written on its TEXTSTRING record
+
     std::vector<uint8_t> run() {
         // 1. file-level properties come first in the stream, so they are encoded first (modal state)
         W fileprops;
         props(fileprops, m.props);
+        // properties that all labels of one text have in common, in front of their own, can stand on the
+        // TEXTSTRING record instead (texts given by number)
+        if (c.text_strings == 2 && c.hoist_text_props) {  // (table behind the cells: nothing after it relies on modal state)
+            std::map<std::string, std::vector<const model::MLabel*>> by_text;
+            for (auto& cell : m.cells)
+                for (auto& l : cell.labels) by_text[l.text].push_back(&l);
+            for (auto& kv : by_text) {
+                std::vector<model::MProp> pre = kv.second[0]->props;
+                for (auto* l : kv.second) {
+                    size_t k = 0;
+                    while (k < pre.size() && k < l->props.size() && model::to_json(std::vector<model::MProp>{pre[k]}).str(0) == model::to_json(std::vector<model::MProp>{l->props[k]}).str(0)) k++;
+                    pre.resize(k);
+                }
+                if (!pre.empty()) hoisted[kv.first] = pre;
+            }
+        }
         // 2. cells
         std::vector<std::vector<Chunk>> cell_chunks;
         for (auto& cell : m.cells) {
@@ -1216,6 +1241,11 @@ struct Enc {
                 w.byte(c.explicit_numbers ? id_implicit + 1 : id_implicit);
                 w.str(order[i]);
                 if (c.explicit_numbers) w.uint(final_number(i, 0, table));
+                if (table == 1 && hoisted.count(order[i])) {
+                    m_pname = false;
+                    m_pvals = false;
+                    props(w, hoisted[order[i]]);
+                }
                 if (table == 0 && name_record_props.count(order[i])) {
                     // self-contained PROPERTY records: the table sits after all cells, nothing relies on modal state later
                     m_pname = false;
